@@ -59,7 +59,15 @@ func NewFileCache[MetadataT any](cfg *config.Config, rootDir string, maxCacheSiz
 			c.mu.RUnlock()
 
 			for key, metadata := range snapshot {
-				if !yield(key, metadata) {
+				// Get/UpdateMetadata write the metadata under the entry's lock, so read it under that lock too.
+				lock := getLock(c.locks, key)
+				if !lock.TryRLock() {
+					continue // in use right now; the next scan will see it
+				}
+				meta := *metadata
+				lock.RUnlock()
+
+				if !yield(key, &meta) {
 					break
 				}
 			}
